@@ -183,7 +183,8 @@ class MPEval:
                 raise Irregular('log of non-positive')
             return {'log': MP.log, 'log2': lambda z: MP.log(z, 2), 'log10': MP.log10}[f](a)
         if f == 'sqrt':
-            if a < m or a < 0 or (self.deriv and a == 0):
+            # the value sqrt(0) = 0 is regular; only its derivative is singular there
+            if a < 0 or (a != 0 and a < m) or (self.deriv and a < m):
                 raise Irregular('sqrt of non-positive')
             return MP.sqrt(a)
         if f == 'tanh':
@@ -218,10 +219,90 @@ class MPEval:
 def evaluate(t, env, pars=None, deriv=False):
     """-> (value as float, tolerance). Raises Irregular at irregular points.
     deriv=True additionally treats kinks (abs at 0, sqrt at 0) as irregular."""
+    if has_tiny(t):
+        # extreme magnitudes: a tolerance proportional to the largest intermediate would be vacuous
+        v, err = value_and_error(t, env, pars, deriv)
+        return v, 1e4 * err + 1e-9 * abs(v)
     e = MPEval(env, pars, strict=True, deriv=deriv)
     v = e.ev(t)
     tol = 1e-10 * (1.0 + float(e.mag)) * max(1, e.size)
     return float(v), tol
+
+
+
+# ---------------------------------------------------------------- running error bound
+EPS = MP.mpf(2) ** -52
+DPRIME = {
+    'neg': lambda a: 1, 'abs': lambda a: 1, 'sin': lambda a: abs(MP.cos(a)), 'cos': lambda a: abs(MP.sin(a)),
+    'tan': lambda a: 1 / MP.cos(a) ** 2, 'exp': lambda a: MP.exp(a), 'log': lambda a: 1 / abs(a),
+    'log2': lambda a: 1 / abs(a * MP.log(2)), 'log10': lambda a: 1 / abs(a * MP.log(10)), 'sqrt': lambda a: 1 / (2 * MP.sqrt(a)) if a > 0 else 0,
+    'tanh': lambda a: 1 - MP.tanh(a) ** 2, 'sinh': lambda a: MP.cosh(a), 'cosh': lambda a: abs(MP.sinh(a)),
+    'asin': lambda a: 1 / MP.sqrt(1 - a * a), 'acos': lambda a: 1 / MP.sqrt(1 - a * a), 'atan': lambda a: 1 / (1 + a * a),
+    'asinh': lambda a: 1 / MP.sqrt(1 + a * a), 'acosh': lambda a: 1 / MP.sqrt(a * a - 1), 'atanh': lambda a: 1 / abs(1 - a * a),
+}
+
+
+def value_and_error(t, env, pars=None, deriv=False):
+    """(value, bound on the rounding error of a straightforward double-precision evaluation of this term).
+    First-order running error analysis; used where magnitudes are extreme (tiny literals) and the
+    magnitude-based tolerance of `evaluate` would be vacuous."""
+    e = MPEval(env, pars, strict=True, deriv=deriv)
+
+    def go(u):
+        k = u['k']
+        if k in ('const', 'var', 'par'):
+            v = e.ev(u)
+            return v, EPS * abs(v)
+        if k == 'un':
+            a, ea = go(u['a'])
+            v = e.note(e.un(u['f'], a))
+            return v, DPRIME[u['f']](a) * ea + EPS * abs(v)
+        l, el = go(u['l'])
+        r, er = go(u['r'])
+        v = e.ev({'k': 'bin', 'op': u['op'], 'l': {'k': 'const', 'q': [0, 1]}, 'r': {'k': 'const', 'q': [0, 1]}}) if False else None
+        op = u['op']
+        if op == '+':
+            v = l + r
+            err = el + er
+        elif op == '-':
+            v = l - r
+            err = el + er
+        elif op == '*':
+            v = l * r
+            err = abs(l) * er + abs(r) * el
+        elif op == '/':
+            if abs(r) < 1e-3:
+                raise Irregular('small denominator')
+            v = l / r
+            err = el / abs(r) + abs(l) * er / (r * r)
+        else:
+            if r == int(r):
+                n = int(r)
+                if n < 0 and abs(l) < 1e-3:
+                    raise Irregular('0 ** negative')
+                v = l ** n
+                err = abs(n) * abs(l) ** (n - 1) * el if l != 0 or n >= 1 else 0
+            else:
+                if l < 1e-3:
+                    raise Irregular('non-integer power of non-positive base')
+                v = MP.power(l, r)
+                err = abs(v) * (abs(r) * el / l + abs(MP.log(l)) * er)
+        if abs(v) > BIG:
+            raise Irregular('magnitude')
+        return v, err + EPS * abs(v)
+    v, err = go(t)
+    return float(v), float(err)
+
+
+def has_tiny(t):
+    k = t['k']
+    if k == 'par':
+        return t['p'] == 99
+    if k in ('const', 'var'):
+        return False
+    if k == 'un':
+        return has_tiny(t['a'])
+    return has_tiny(t['l']) or has_tiny(t['r'])
 
 
 def regular_for_derivative(t, env, pars=None):
